@@ -47,10 +47,13 @@ class Relation(object):
         self.name, self.transform, self.relate, self.extra_pre = name, transform, relate, extra_pre
 
 
-def relational_obligations(contract, size, rel):
+def relational_obligations(contract, size, rel, contract2=None):
     reset_fresh()
     mod = source.module(contract.rel)
     fdef = mod.func(contract.func, contract.cls)
+    c2 = contract2 or contract
+    mod2 = source.module(c2.rel)
+    fdef2 = mod2.func(c2.func, c2.cls)
     st, pre, ctx = contract.setup('B', size)
     pre = [p for p in pre if p is not True]
     if rel.extra_pre is not None:
@@ -58,9 +61,11 @@ def relational_obligations(contract, size, rel):
     if any(p is False for p in pre):
         return [], dict(paths=0, vacuous=True)
 
-    def engine():
-        e = Engine(mod.funcs, 'B', call_models=contract.call_models('B'), ctx=ctx, fname=contract.func)
-        e.classes = {cn: {m.name: m for m in cd.body if hasattr(m, 'name')} for cn, cd in mod.classes.items()}
+    def engine(m_=None, c_=None):
+        m_ = m_ or mod
+        c_ = c_ or contract
+        e = Engine(m_.funcs, 'B', call_models=c_.call_models('B'), ctx=ctx, fname=c_.func)
+        e.classes = {cn: {m.name: m for m in cd.body if hasattr(m, 'name')} for cn, cd in m_.classes.items()}
         return e
     e1 = engine()
     names = [a.arg for a in fdef.args.args]
@@ -80,15 +85,19 @@ def relational_obligations(contract, size, rel):
         n1 += 1
         out1 = ret_lists(s1, o1[1])
         args2, extra = rel.transform(ctx, args1)
-        e2 = engine()
+        e2 = engine(mod2, c2)
         pc_start = PC(pc1.hyp() + [h for h in extra if h is not True])
         if not e2.feasible(pc_start):
             continue
         s2 = state_from(args2)
-        for a_ in names:
-            if a_ not in s2.vars and a_ in st.vars:
+        names2 = [a.arg for a in fdef2.args.args]
+        for a_ in names2:
+            if a_ not in s2.vars and a_ in st.vars and contract2 is None:
                 s2.vars[a_] = st.vars[a_]
-        paths2 = run_function(e2, fdef, s2, pc_start)
+        for a_, d_ in zip(names2[len(names2) - len(fdef2.args.defaults):], fdef2.args.defaults):
+            if a_ not in s2.vars:
+                s2.vars[a_] = e2.ev(d_, s2, PC([]))
+        paths2 = run_function(e2, fdef2, s2, pc_start)
         for (s2b, pc2, o2) in paths2:
             if o2 is None or o2[0] != 'ret':
                 obls.append(Obl("%s.second-run-ends-with-%s" % (rel.name, o2[0] if o2 else 'none'), pc2.hyp(), z3.BoolVal(False), 'safety'))
@@ -107,12 +116,13 @@ def relational_obligations(contract, size, rel):
 class RelGroup(Group):
     strength = 'B'
 
-    def __init__(self, name, contract, relations, sizes_quick, sizes_thorough, bound_text, timeout_ms=10000, allow_open=()):
+    def __init__(self, name, contract, relations, sizes_quick, sizes_thorough, bound_text, timeout_ms=10000, allow_open=(), contract2=None):
         self.name, self.contract, self.relations = name, contract, relations
+        self.contract2 = contract2
         self.sizes = dict(quick=list(sizes_quick), thorough=list(sizes_thorough))
         self.bound_text = bound_text
         self.timeout_ms = timeout_ms
-        self.functions = [(contract.rel, contract.func, contract.cls)]
+        self.functions = [(contract.rel, contract.func, contract.cls)] + ([(contract2.rel, contract2.func, contract2.cls)] if contract2 else [])
         self.allow_open = tuple(allow_open)     # relation names whose undecided (unknown) goals are reported, not failed
 
     def tasks(self, tier):
@@ -129,11 +139,11 @@ class RelGroup(Group):
         if getattr(c, 'opaque', None) is not None:
             c.opaque(True)
             try:
-                obls, stats = relational_obligations(c, size, rel)
+                obls, stats = relational_obligations(c, size, rel, self.contract2)
                 solve_inline(obls, c.extra_facts(), 1500 if open_ok else 5000, done, 'z3-5.1(py)+opaque-spec', keep_sat=False)
             finally:
                 c.opaque(False)
-        obls, stats = relational_obligations(c, size, rel)
+        obls, stats = relational_obligations(c, size, rel, self.contract2)
         solve_inline(obls, [], 1500 if open_ok else self.timeout_ms, done, 'z3-5.1(py)', keep_sat=True)
         jobs = []
         undecided = 0
